@@ -89,7 +89,10 @@ class TextMeasure(Part):
                          st.one_of(st.integers(60, 140), st.integers(500, 1100)), st.sampled_from(["", "", "    "]), st.booleans())
         t = st.one_of(GC.words_text(8), GC.words_text(8), GC.mixed_text(30, newlines=True), st.sampled_from(["", " ", "\n", "a", " a ", "a\n", "\na", GC.WIDE[0] + "　" + "b"]), para,
                       # white space that is not a line end for rich (str.splitlines() would break there): NEL, FS, LS, PS, NBSP, thin space
-                      st.lists(st.one_of(st.sampled_from(["ab", "cde", "x", GC.WIDE[0], "fghij"]), st.sampled_from(["\x85", "\x1c", "\u2028", "\u2029", "\xa0", "\u2009", "\u3000", " ", "\n"])), min_size=1, max_size=8).map("".join))
+                      st.lists(st.one_of(st.sampled_from(["ab", "cde", "x", GC.WIDE[0], "fghij"]), st.sampled_from(["\x85", "\x1c", "\u2028", "\u2029", "\xa0", "\u2009", "\u3000", " ", "\n"])), min_size=1, max_size=8).map("".join),
+                      # words followed by white-space runs that mix ordinary spaces with zero-width white space (FS .. US, NEL, LS, PS) and hang over the width at a wrap point
+                      st.lists(st.tuples(st.sampled_from(["ab", "cde", "x", GC.WIDE[0] * 2, "fghij", "klmnopq"]), st.lists(st.sampled_from([" ", " ", "\x1c", "\x1f", "\x85", "\u2028", "\u2029", "\u3000"]), min_size=1, max_size=3).map("".join)).map("".join),
+                               min_size=1, max_size=6).map("".join))
         return st.builds(lambda s, a, j, o: {"s": s, "A": a, "justify": j, "other": o}, t, st.one_of(st.integers(0, 12), st.integers(0, 200), st.integers(0, 2000)), st.sampled_from([None, "left", "full", "center"]), st.one_of(st.none(), GC.mixed_text(40, newlines=True)))
 
     def check(self, spec, ctx):
@@ -129,6 +132,16 @@ class TextMeasure(Part):
             if wrapped != want:
                 ctx.violation("text-no-wrap-at-maximum", "C09/text/wrapped-at-maximum", "Text(%r) given its maximum %d wraps into %r, the lines are %r" % (s, full, wrapped, want))
                 return
+        # the statement's own clause on the text: rendered (top level, default fold) at the reported minimum and maximum no line is wider than that value
+        has_wide = any(OC.cw(c) == 2 for c in s)
+        for label, v in (("minimum", m.minimum), ("maximum", m.maximum)):
+            if v >= (2 if has_wide else 1):
+                conv = sut(Console, file=io.StringIO(), width=v, color_system=None, _environ={})
+                segs = sut(lambda: list(conv.render(Text(s, justify=spec["justify"]), conv.options)))
+                for i, ln in enumerate("".join(g.text for g in segs if not g.is_control).split("\n")):
+                    if OC.width(ln) > v:
+                        ctx.violation("render-at-" + label, "C09/text/render-%s" % label, "Text(%r, justify=%r) measured %r; rendered at the %s %d, line %d is %d cells: %r" % (s, spec["justify"], tuple(m), label, v, i, OC.width(ln), ln))
+                        return
         # history: the same Text object gets other content of the same length (text.plain = ...) and is measured again
         other = spec.get("other")
         if other is not None and len(other) >= len(s) > 0:
